@@ -70,7 +70,7 @@ Inductive pstate :=
 | PAbsent                     (* nothing there, parent directory exists *)
 | PNoParent                   (* nothing there and the parent directory does not exist *)
 | PFile (content : str)       (* the output (file bytes / canonical bytes of the directory tree) *)
-| PWrongKind.                 (* a directory where a file is declared *)
+| PWrongKind.                 (* a directory where a file is declared (a restore replaces it) *)
 
 Record result := mkRes {
   r_outhash : str;
@@ -260,11 +260,8 @@ Definition load_one (c : cache) (t : tdef) (o : outdef) (dg : str) (ws : list (s
   if same then Some ws
   else match alookup dg (c_cas c) with
        | None => None
-       | Some content =>
-           match o_kind o, cur with
-           | OFile, PWrongKind => None           (* os.Create: is a directory *)
-           | _, _ => Some (ws_set p (PFile content) ws)
-           end
+       | Some content => Some (ws_set p (PFile content) ws)   (* a directory sitting at a file's path is
+                                                                  removed first (Lstat + RemoveAll, C06-F3 repaired) *)
        end.
 
 Definition find_out (outs : list outdef) (def : str) : option outdef :=
